@@ -123,3 +123,24 @@ def r19_2(ctx):
         ok = before.get("self._watchdog_failures") == 0 and before.get("self._watchdog_feed_counter") == 0
         ctx.require(ok, "_watchdog_loop:zero", f"_watchdog_loop starts zigpy's loop with counters {before} (both must be reset to 0 first, or a "
                     "restarted loop inherits the failures of the previous one)", func=f, trace=p.trace())
+
+
+@rule("R19.4", ["C19", "C06"], "T-TAB", floor=3)
+def r19_4(ctx):
+    """What the watchdog counts as a failed keep-alive is what the command layer raises: InvalidCommandError is an
+    EzspError (so a keep-alive the NCP rejects is counted, not propagated), EzspError derives from zigpy's API exception,
+    and the feed's handler names EzspError and the timeout."""
+    import ast as _ast
+
+    repo = ctx.repo
+    exc = "bellows.exception"
+    ice = repo.cls(exc, "InvalidCommandError")
+    ctx.require("EzspError" in ice.base_names(), "InvalidCommandError<EzspError", f"InvalidCommandError bases: {ice.base_names()}")
+    ee = repo.cls(exc, "EzspError")
+    ctx.require(any(b in ("APIException", "ZigbeeException") for b in ee.base_names()), "EzspError<APIException", f"EzspError bases: {ee.base_names()}")
+    f = repo.func(f"{APP}:ControllerApplication._watchdog_feed")
+    names = set()
+    for n in _ast.walk(f.node):
+        if isinstance(n, _ast.ExceptHandler) and n.type is not None:
+            names |= {_ast.unparse(t).split(".")[-1] for t in (n.type.elts if isinstance(n.type, _ast.Tuple) else [n.type])}
+    ctx.require({"EzspError", "TimeoutError"} <= names, "feed-handler", f"_watchdog_feed handles {sorted(names)}; it must count EzspError and TimeoutError", func=f)
